@@ -103,6 +103,10 @@ OTHER_FAILS = [
     ("once-raise", "SELECT id, ONCE.RAISE('boom') FROM t"),
     ("once-err-fn", "SELECT id, ONCE.VF_ERR(TRUE) AS v FROM t"),
     ("once-err-where", "SELECT id FROM t WHERE ONCE.VF_ERR(TRUE) IS NULL"),
+    ("bad-selector", "SELECT id, `items[first]` AS v FROM t"),
+    ("bad-selector-continuation", "SELECT id, `items::[first]` AS v FROM t"),
+    ("bad-selector-range", "SELECT `items::[(1:2:3)]` AS v FROM t"),
+    ("bad-selector-from", "SELECT * FROM `t::[x]`"),
 ]
 
 
@@ -160,11 +164,14 @@ def explore(chk, rnd, tier):
     # RAISE family and type errors: an error, no rows
     doc = gen_doc(rnd)
     doc["t"] = [{"id": i, "a": [1, 2, 3][i % 3], "s": "x", "items": [{"id": 1, "x": 1}]} for i in range(4)]
-    outs = run_go([{"op": "query", "doc": enc_val(doc), "sql": sql} for _, sql in OTHER_FAILS])
-    for (name, sql), o in zip(OTHER_FAILS, outs):
+    # each failing query is run three times in ONE process: it fails every time (a failed run leaves nothing behind -
+    # no cache entry, no memo - that lets the next run of the same text succeed)
+    outs = run_go([{"op": "query", "doc": enc_val(doc), "sql": sql} for _, sql in OTHER_FAILS for _rep in range(3)])
+    for i, o in enumerate(outs):
+        name, sql = OTHER_FAILS[i // 3]
         chk.count("other:" + name + ":" + str(o.get("r")))
         if o.get("r") != "error" or o.get("rowsWithError"):
-            chk.add_violation("failure-not-reported", {"kind": name, "sql": sql, "doc": doc, "impl": o})
+            chk.add_violation("failure-not-reported", {"kind": name, "sql": sql, "doc": doc, "impl": o, "run_in_process": i % 3 + 1})
             return
     # a sort key that cannot be read on ONE row, at every position of tables of 3-9 rows: the comparator fails in the
     # middle of the sort, and the failure must survive the comparisons that follow it
